@@ -385,6 +385,15 @@ func respReleaseSite(c *cx, id string, f *eng.Fn, call *ast.CallExpr, ri int) {
 			exits = append(exits, exit{ex, nil, f.Body.Rbrace})
 		}
 	}
+	// a response is not handed to xmlstream.NewIter as it is: Iter.Close drains
+	// its reader first and returns WITHOUT closing it when the drain fails (a
+	// reply that is not well formed, or cut off by the end of the stream), and
+	// a second Iter.Close does nothing: the response stays open for good
+	for _, cl := range f.AllCalls() {
+		if f.CalleeID(cl) == "mellium.im/xmlstream.NewIter" && len(cl.Args) == 1 && isR(cl.Args[0]) {
+			c.r.Check(id, f, what+" handed to xmlstream.NewIter", "E-res: a response reaches an xmlstream.Iter only through a reader that closes it when reading fails (internal/respiter)", cl.Pos(), false, "xmlstream.Iter.Close does not close its reader when the drain fails: a malformed or truncated reply leaves the response open and the serve loop never continues")
+		}
+	}
 	// released at most once: closing a response closes the hand-off channel,
 	// which is not idempotent (the second Close panics with "close of closed
 	// channel"). An unconditional deferred Close together with a direct Close
@@ -1286,4 +1295,49 @@ func decoderLoopConsumes(c *cx, id string, in func(f *eng.Fn) bool) int {
 		}
 	}
 	return n
+}
+
+// respIterContract: the reader internal/respiter puts between a response and
+// an xmlstream.Iter closes the response on every read error other than io.EOF,
+// and its Close is idempotent (Iter.Close calls it again on the good path).
+func respIterContract(c *cx, id string) {
+	tk := c.fn(id, "internal/respiter", "(*response).Token")
+	if tk != nil {
+		g := tk.Graph()
+		n := 0
+		isClose := func(q eng.Point, nd ast.Node) bool { return tk.ContainsCall(nd, "internal/respiter.response.Close") != nil }
+		for _, rs := range g.Returns {
+			rp, _ := g.Where(rs)
+			for _, ce := range g.EdgesMatching("!eq(*Token*#1,nil)") {
+				from := g.EdgeTarget(ce.E)
+				// paths that also establish err == io.EOF are exempt
+				cut := g.CutFor("!eq(*Token*#1,var:io.EOF)")
+				if !g.Reachable(from, rp, cut, nil) {
+					continue
+				}
+				n++
+				c.r.Check(id, tk, "response closed when reading it fails", "O: from the edge err != nil (and err != io.EOF) every return passes Close", rs.Pos(), !g.Reachable(from, rp, cut, isClose), "a read error can be returned without the response having been closed")
+			}
+		}
+		c.r.Floor(id, "error returns of the response reader", n, 1)
+	}
+	cf := c.fn(id, "internal/respiter", "(*response).Close")
+	if cf != nil {
+		n := 0
+		for _, cl := range cf.AllCalls() {
+			if sel, ok := ast.Unparen(cl.Fun).(*ast.SelectorExpr); ok && sel.Sel.Name == "Close" {
+				n++
+				c.dom(id, cf, cl, "underlying Close runs once", []string{"!recv.closed"})
+				// and the flag is set before
+				g := cf.Graph()
+				pt, _ := g.Where(cl)
+				setFlag := func(q eng.Point, nd ast.Node) bool {
+					as, ok := nd.(*ast.AssignStmt)
+					return ok && len(as.Lhs) == 1 && cf.Norm(as.Lhs[0], nil) == "recv.closed" && cf.Norm(as.Rhs[0], nil) == "true"
+				}
+				c.r.Check(id, cf, "closed flag set before the underlying Close", "O: the flag is set on every path to the underlying Close", cl.Pos(), g.MustPassBefore(g.Entry(), pt, setFlag, nil) || setFlag(pt, nil), "the underlying Close can run with the flag still false: a second call closes again")
+			}
+		}
+		c.r.Floor(id, "underlying Close calls in respiter", n, 1)
+	}
 }
